@@ -1373,6 +1373,26 @@ def c12(ctx):
             out.append(bad(R, key, '; '.join(probs2), fn=k.name))
         else:
             out.append(ok(R, key, 'Pending input -> keep polling; full buffer -> park the waker and keep polling; end of input -> finished', fn=k.name))
+    # the waker parked in the back-pressure slot is still good when the consumer fires it: it is parked before this job has handed it to
+    # the input stream (so nobody else can use it up), or the next job replaces whatever is in the slot
+    key = 'pipe|backpressure-waker-live'
+    bp_all = [bb for (bb, i, v) in u.assigns.get('backpressure_release_notify', []) if v[0] == 'agg' and v[2].endswith('Option::Some')]
+    after_poll = k.reachable_blocks(polls[0].t['target']) if polls[0].t['target'] is not None else set()
+    late = [b for b in bp_all if b in after_poll]
+    early = [b for b in bp_all if b not in after_poll]
+    prb2 = pipe_result_blocks(ctx, k)
+    if not bp_all or prb2 is None:
+        out.append(undecided(R, key, 'back-pressure registration or the poll function\'s answers not recognised'))
+    else:
+        keep2 = [b for b in prb2[0] if b not in after_poll]
+        refresh = bool(early) and bool(keep2) and all(any(dominates(k, e_, b) or edom(k, e_, b) for e_ in early) for b in keep2)
+        if not late:
+            out.append(ok(R, key, 'the waker is parked only before the input is polled in that job', fn=k.name))
+        elif refresh:
+            out.append(ok(R, key, 'a waker parked after the input was polled can be used up by the input, but every throttled poll job replaces the slot', fn=k.name))
+        else:
+            out.append(bad(R, key, 'a waker is parked in the back-pressure slot after the same waker was handed to the input stream, and a later throttled poll does not always replace it: '
+                           'the input can use the (one-shot) waker up, the consumer then fires a dead waker and the producer never resumes', fn=k.name))
     # closed = true only on Ready(None)
     key = 'pipe|closed-at-end'
     cl = [(bb, i) for (bb, i, v) in u.assigns.get('closed', [])]
@@ -1837,7 +1857,22 @@ def c11_sleep(ctx):
         if not trues or pending is None:
             out.append(undecided(R, key, 'shape not recognised (true results %d)' % len(trues)))
             continue
-        badb = [b for b in trues if not (edom(k, pending, b) or any(dominates(k, pb, b) or edom(k, pb, b) for pb in parks))]
+        # `if slot.is_none() { slot = Some(waker) }`: on the other edge a waker is already parked there
+        occupied = []
+        for bb_, b_ in enumerate(k.blocks):
+            t_ = b_['term']
+            if t_ and t_['k'] == 'switch' and not b_['cleanup'] and t_['discr']['k'] != 'const' and not t_['discr']['pl']['p']:
+                txt_ = render(k.expr_of_local(t_['discr']['pl']['l']))
+                if 'backpressure_release_notify' in txt_:
+                    zero_ = dict((str(v), tb) for v, tb in t_['targets']).get('0')
+                    if txt_.startswith('is_none(') and zero_ is not None:
+                        occupied.append(zero_)
+                    elif txt_.startswith('is_some('):
+                        occupied.append(t_['otherwise'])
+        parks = list(parks) + occupied
+        from .ordq import feasible_reach
+        badb = [b for b in trues if not (edom(k, pending, b) or any(dominates(k, pb, b) or edom(k, pb, b) for pb in parks))
+                and feasible_reach(k, 0, {b}, set(parks) | {pending})]
         if badb:
             out.append(bad(R, key, 'the poll function answers "still waiting" on a path where nobody holds its waker (the input was not Pending and no back-pressure registration): the pipe is never polled again and the remaining items are lost', loc=k.loc(badb[0]), fn=k.name))
         else:
